@@ -207,6 +207,8 @@ func (x *Exec) frameObligations(fr *Frame, ct *Contract, fin *State, reach *Term
 		fams, big := x.designatorFamilies(d, names, typs)
 		var pname string
 		switch {
+		case reAsPtr.MatchString(d):
+			pname = reAsPtr.FindStringSubmatch(d)[1]
 		case strings.HasPrefix(d, "bigval("):
 			pname = d[7 : len(d)-1]
 		case strings.HasPrefix(d, "*"):
